@@ -49,7 +49,8 @@ func (c *Decoder) nextFrame() *Frame {
 		return c.fin
 	}
 
-	if _, err := io.LimitReader(c.r, 2).Read(*buf); err != nil {
+	// The two size bytes may straddle the buffered reader's refill boundary, a single Read could return only one of them
+	if _, err := io.ReadFull(c.r, (*buf)[:2]); err != nil {
 		return &Frame{
 			frameType: UNKNOWN,
 			size:      0,
